@@ -32,11 +32,15 @@ impl ByteSrc {
     pub uninterp spec fn remaining(&self) -> Seq<u8>;
     /// how often the source may still answer `Interrupted` (assumption: not forever)
     pub uninterp spec fn interrupts_left(&self) -> nat;
+    /// how many of its calls have answered with an error so far (ghost bookkeeping, so that "no error of the source is
+    /// swallowed" can be stated by the callers)
+    pub uninterp spec fn errors_returned(&self) -> nat;
 
     #[verifier::external_body]
     pub fn read(&mut self, buf: &mut [u8]) -> (r: Result<usize, IoErr>)
         ensures
             final(buf)@.len() == old(buf)@.len(),
+            final(self).errors_returned() == old(self).errors_returned() + (if r is Err { 1nat } else { 0nat }),
             r is Err && r->Err_0.spec_kind() is Interrupted ==> final(self).interrupts_left() < old(self).interrupts_left()
                 && final(self).remaining() == old(self).remaining(),
             match r {
